@@ -78,20 +78,22 @@ ReduceOut(rc) == ApplyS(rc.f, rc.v, rc.initial + rc.leaves.x + rc.leaves.y)
 DKeys == {"a", "b", "c"}
 InnerD == {[x |-> 1], [x |-> 2, y |-> 5]}
 Currents == UNION {[S -> InnerD] : S \in SUBSET {"a", "b"}}
-\* operations: add a new key, delete an existing key, update the inner
-\* dictionary of an existing key (on distinct keys: the order is immaterial)
+\* operations, carried out in the order the update lists them: add a key (new,
+\* or replacing an existing entry), update the inner dictionary of a key that
+\* exists by then (also the one just added), delete existing keys
 DictOps(cur) ==
   {[add |-> A, del |-> Dl, upd |-> U] :
-     A \in {<<>>} \cup {("c" :> i) : i \in InnerD},
+     A \in {<<>>} \cup {(k :> i) : k \in {"a", "c"}, i \in InnerD},
      Dl \in SUBSET DOMAIN cur,
-     U \in UNION {[S -> {[x |-> 7], [y |-> 8]}] : S \in SUBSET DOMAIN cur}}
+     U \in UNION {[S -> {[x |-> 7], [y |-> 8]}] : S \in SUBSET (DOMAIN cur \cup {"c"})}}
 ValidOp(op) == DOMAIN op.upd \cap op.del = {}
+AfterAdd(cur, op) ==
+  [k \in DOMAIN cur \cup DOMAIN op.add |-> IF k \in DOMAIN op.add THEN op.add[k] ELSE cur[k]]
+ValidFor(cur, op) == ValidOp(op) /\ DOMAIN op.upd \subseteq DOMAIN AfterAdd(cur, op)
 ApplyDict(cur, op) ==
-  LET keys == (DOMAIN cur \cup DOMAIN op.add) \ op.del
-  IN [k \in keys |->
-        IF k \in DOMAIN op.add THEN op.add[k]
-        ELSE IF k \in DOMAIN op.upd THEN MergeInner(cur[k], op.upd[k])
-        ELSE cur[k]]
+  LET added == AfterAdd(cur, op)
+  IN [k \in DOMAIN added \ op.del |->
+        IF k \in DOMAIN op.upd THEN MergeInner(added[k], op.upd[k]) ELSE added[k]]
 
 \* ---- units: magnitudes are kept in the base unit mg; g = 1000 mg
 Units == {"mg", "g"}
@@ -112,7 +114,7 @@ Init ==
   \/ \E b \in Batches : c = [kind |-> "batch", us |-> b]
   \/ \E v \in DictVals, u \in DictVals : c = [kind |-> "merge", v |-> v, u |-> u]
   \/ \E cur \in Currents : \E op \in DictOps(cur) :
-        ValidOp(op) /\ c = [kind |-> "dict_value", cur |-> cur, op |-> op]
+        ValidFor(cur, op) /\ c = [kind |-> "dict_value", cur |-> cur, op |-> op]
   \/ \E cs \in UnitCases : c = [kind |-> "units", cs |-> cs]
   \/ \E sv \in DeepShapes, su \in DeepShapes : c = [kind |-> "deep", sv |-> sv, su |-> su]
 Next == UNCHANGED c
@@ -180,7 +182,7 @@ Export ==
         merge |-> SetToSeq({Expected([kind |-> "merge", v |-> v, u |-> u]) :
                                v \in DictVals, u \in DictVals}),
         dict_value |-> SetToSeq(UNION {{Expected([kind |-> "dict_value", cur |-> cur, op |-> op]) :
-                               op \in {o \in DictOps(cur) : ValidOp(o)}} : cur \in Currents}),
+                               op \in {o \in DictOps(cur) : ValidFor(cur, o)}} : cur \in Currents}),
         units |-> SetToSeq({Expected([kind |-> "units", cs |-> cs]) : cs \in UnitCases}),
         reduce |-> SetToSeq({[rc |-> rc, out |-> ReduceOut(rc)] : rc \in ReduceCases}),
         deep |-> SetToSeq({[v |-> DeepRows(DeepOf(sv, 1)), u1 |-> DeepRows(DeepOf(s1, 2)),
